@@ -7,15 +7,12 @@ LEVEL = "other"
 
 def run(ctx):
     R = ctx.report
-    R.explanation = ("CONST-1: every layout constant and width discriminant equals the value transcribed from the DLT PRS; ORD-1: byte order of every numeric "
+    R.explanation = ("WIRE: the writer's layout per shape equals the layout transcribed from the DLT PRS (independent of the parser); CONST-1: every layout constant and width discriminant equals the value transcribed from the DLT PRS; ORD-1: byte order of every numeric "
                      "field reference is the spec's (BE headers, LE storage header, message order in payload).")
     R.not_decided = ["verdict equivalence with a reference decoder over all byte strings (needs running both or a full semantic model of nom)"]
     lib_const.check(ctx, rule="CONST-1")
     R.floor("CONST-1", 39)
     lib_ord.check(ctx, wire_bodies(ctx.facts), "ORD-1", PAIRED)
     R.floor("ORD-1", 90)
-    try:
-        from rules import lib_wire
-        lib_wire.check_headers_against_spec(ctx)
-    except ImportError:
-        R.notes.append("WIRE-2 (header layouts vs spec) not built yet")
+    from rules.C01 import wire_and_consumption
+    wire_and_consumption(ctx, cons=False)
